@@ -594,7 +594,16 @@ class HamHistory(common.Suite):
         set_constraint(atoms, case["cons"])
         events = []
         vr = _random.Random(case["veto_seed"])
-        mv = HamiltonianDisplacementMove(operation=Verlet(dt=case["dt_fs"], max_steps=case["steps"]))
+        if case["seed"] % 3 == 0:
+            # the move built with its DEFAULT integrator, configured afterwards — after another default-built move of the
+            # same process had its integrator told not to apply constraints: what one object is told must not reach another
+            decoy = HamiltonianDisplacementMove()
+            decoy.operation.apply_constraints = False
+            mv = HamiltonianDisplacementMove()
+            ref = Verlet(dt=case["dt_fs"], max_steps=case["steps"])
+            mv.operation.dt, mv.operation.max_steps = ref.dt, ref.max_steps
+        else:
+            mv = HamiltonianDisplacementMove(operation=Verlet(dt=case["dt_fs"], max_steps=case["steps"]))
         mv.max_attempts = case["max_attempts"]
 
         def check(*_a, **_k):
